@@ -57,8 +57,19 @@ def gen(rnd, i):
     for arr, size, off in (('x', n1, 0), ('y', n2, n1)):
         if size == 0:
             continue
-        mode = rnd.choice(['whole', 'slice', 'mixed'])
-        if mode == 'whole':
+        mode = rnd.choice(['whole', 'slice', 'mixed', 'perm', 'perm'] if size >= 2 else ['whole', 'slice', 'mixed'])
+        if mode == 'perm':
+            # bounds on slices whose entries are NOT in ascending order of the variable: x[::-1] >= scalar,
+            # x[[k, .., 0]] <= array; entry k of dual() belongs to entry k of the slice
+            sel = list(range(size))[::-1]
+            bnds.append(dict(arr=arr, idx=dict(sel=sel, rev=True), t='L', v=rnd.choice([-2, -1, 0])))
+            sel2 = sel[:]
+            rnd.shuffle(sel2)
+            if rnd.random() < 0.5:
+                bnds.append(dict(arr=arr, idx=dict(sel=sel2, rev=False), t='U', v=[rnd.choice([1, 2, 3]) for _ in sel2]))
+            else:
+                bnds.append(dict(arr=arr, idx=dict(sel=sel2, rev=False), t='U', v=rnd.choice([1, 2.5])))
+        elif mode == 'whole':
             bnds.append(dict(arr=arr, idx=None, t='L', v=[rnd.choice([-2, -1, 0]) for _ in range(size)]))
             bnds.append(dict(arr=arr, idx=None, t='U', v=[rnd.choice([1, 2, 3]) for _ in range(size)]))
         elif mode == 'slice':
@@ -117,6 +128,8 @@ def build(spec):
         v = x if b['arr'] == 'x' else y
         if b['idx'] is None:
             tgt = v
+        elif isinstance(b['idx'], dict):
+            tgt = v[::-1] if b['idx']['rev'] else v[np.array(b['idx']['sel'])]
         elif isinstance(b['idx'], list):
             tgt = v[b['idx'][0]:b['idx'][1]]
         else:
@@ -153,13 +166,15 @@ def user_rows(spec):
         off = 0 if b['arr'] == 'x' else spec['n1']
         if b['idx'] is None:
             idx = list(range(size))
+        elif isinstance(b['idx'], dict):
+            idx = list(b['idx']['sel'])
         elif isinstance(b['idx'], list):
             idx = list(range(b['idx'][0], b['idx'][1]))
         else:
             idx = [b['idx']]
         vals = b['v'] if isinstance(b['v'], list) else [b['v']] * len(idx)
         bgroups.append(dict(t=b['t'], cols=[off + j for j in idx], vals=[Fraction(v) for v in vals],
-                            scalar=not isinstance(b['idx'], list) and b['idx'] is not None))
+                            scalar=not isinstance(b['idx'], (list, dict)) and b['idx'] is not None))
     return groups, bgroups
 
 
